@@ -42,7 +42,12 @@ ASSUMPTIONS = ["each terminal (shape, pin class) belongs to one hyperedge (gener
                "the improver's object lists are read only when an improvement option is on (otherwise they are stale)",
                "route-end slack as stated in LEVEL_NOTE"]
 EXPLANATION = ("SPECFAIL messages start with the most specific failure kind present in the case; kinds the "
-               "unmodified library is known to produce rank last, so a known defect never masks a new one.")
+               "unmodified library is known to produce rank last, so a known defect never masks a new one. "
+               "The library's own route-end / dangling-junction defects carry decidable sub-fingerprints in the kind "
+               "(route-end-mismatch[nudged-off-junction | along-terminal-shape-edge | terminal-end-shifted-with-junction | "
+               "rerouted-junction-link-misses-final-piece], dangling-junction[new-split-junction]); whatever does not meet "
+               "a sub-fingerprint keeps the plain kind and stays strict. A crash message quotes the failed assertion / "
+               "sanitizer headline taken from the crashing child's stderr.")
 
 
 def plan(tier, seed, searching):
